@@ -456,6 +456,87 @@ def _config_task(task, p):
     p.sample(sub, {"op": name, "dtype": dtype, "orders": [list(o) for o in orders], "yx_chunkings": len(pairs), "schedulers": scheds})
 
 
+# =============================================================================================== (c2) JOINT GRAPHS
+def joint_pairs():
+    """name -> (callA, callB): the same operation with two different auxiliary inputs of equal shape / dtype / name,
+    or the same call on two cubes that differ only in content."""
+    da, zones = base_cube()
+    zones_b = zones.copy(data=np.array([[1, 1, 0, 0], [0, 2, 2, 255], [255, 1, 1, 2]], dtype="int16"))
+    sg = (da.isel(time=0).astype("float64") % 5 - 2).drop_vars("time")
+    sg_b = (3 - sg).clip(-2, 2)
+    lc = ((da.isel(time=0).astype("float64") % 10) / 10).drop_vars("time")
+    lc_b = 1.0 - lc
+    sr, sr_b = np.arange(-2.0, 2.0), np.arange(-1.0, 3.0)
+    la, lb = np.repeat(np.arange(3), 4)[:11].astype("int32"), np.array([0, 0, 0, 1, 1, 1, 1, 1, 2, 2, 2], dtype="int32")
+    tmpl = np.array([1.0, 0, 1, 0, 1, 0, 1, 0, 1, 0, 1])
+    tmpl_b = np.array([1.0, 1, 0, 0, 1, 0, 1, 0, 0, 1, 1])
+    ga, gb = np.array([0, 1, 0, 1, 2, 2], dtype="int16"), np.array([0, 0, 1, 1, 2, 2], dtype="int16")
+    P = {
+        "zonal_mean": (lambda a: a.hdc.zonal.mean(zones, [0, 1, 2]), lambda a: a.hdc.zonal.mean(zones_b, [0, 1, 2])),
+        "zonal_mean_named": (lambda a: a.hdc.zonal.mean(zones, [0, 1, 2], name="zm"), lambda a: a.hdc.zonal.mean(zones_b, [0, 1, 2], name="zm")),
+        "zonal_mean_f64_named": (lambda a: a.hdc.zonal.mean(zones, [0, 1, 2], dtype="float64", dim_name="zz", name="zm"),
+                                 lambda a: a.hdc.zonal.mean(zones_b, [0, 1, 2], dtype="float64", dim_name="zz", name="zm")),
+        "zonal_mean_ids": (lambda a: a.hdc.zonal.mean(zones, [0, 1, 2], name="zm"), lambda a: a.hdc.zonal.mean(zones, [7, 8, 9], name="zm")),
+        "whits_sg": (lambda a: a.hdc.whit.whits(nodata=-9999, sg=sg), lambda a: a.hdc.whit.whits(nodata=-9999, sg=sg_b)),
+        "whits_s": (lambda a: a.hdc.whit.whits(nodata=-9999, s=10.0), lambda a: a.hdc.whit.whits(nodata=-9999, s=100.0)),
+        "whits_p": (lambda a: a.hdc.whit.whits(nodata=-9999, s=10.0, p=0.9), lambda a: a.hdc.whit.whits(nodata=-9999, s=10.0, p=0.1)),
+        "whitsvc_srange": (lambda a: a.hdc.whit.whitsvc(nodata=-9999, srange=sr), lambda a: a.hdc.whit.whitsvc(nodata=-9999, srange=sr_b)),
+        "whitsvc_lc": (lambda a: a.hdc.whit.whitsvc(nodata=-9999, lc=lc, p=0.9), lambda a: a.hdc.whit.whitsvc(nodata=-9999, lc=lc_b, p=0.9)),
+        "whitswcv_robust": (lambda a: a.hdc.whit.whitswcv(nodata=-9999, srange=sr, robust=False), lambda a: a.hdc.whit.whitswcv(nodata=-9999, srange=sr, robust=True)),
+        "whitint": (lambda a: a.hdc.whit.whitint(la, tmpl), lambda a: a.hdc.whit.whitint(lb, tmpl_b)),
+        "spi_groups": (lambda a: a.hdc.algo.spi(groups=[0, 1, 0, 1, 0, 1]), lambda a: a.hdc.algo.spi(groups=[0, 0, 0, 1, 1, 1])),
+        "spi_window": (lambda a: a.hdc.algo.spi(calibration_end="2000-01-31"), lambda a: a.hdc.algo.spi(calibration_begin="2000-01-11")),
+        "mean_grp": (lambda a: a.hdc.algo.mean_grp(ga), lambda a: a.hdc.algo.mean_grp(gb)),
+        "rolling_sum": (lambda a: a.hdc.rolling.sum(2), lambda a: a.hdc.rolling.sum(3)),
+    }
+    return da, P
+
+
+def _joint_task(task, p):
+    """Two lazy results built on the same dask-backed cube and evaluated in ONE graph (dask.compute(a, b), as a
+    Dataset, as a difference): each must still be what the same call gives in memory."""
+    import dask
+    import xarray as xr
+    name = task
+    sub = "joint_graph"
+    da, P = joint_pairs()
+    fa, fb = P[name]
+    da2 = da.copy(data=np.where(da.values == -9999, -9999, (da.values * 3 + 1) % 89 + 2).astype("int16"))
+    n_eval = 0
+    with warnings.catch_warnings():
+        warnings.simplefilter("ignore")
+        for label, (ca, cb), (xa, xb) in (("two auxiliary inputs, one cube", (fa, fb), (da, da)), ("one call, two cubes", (fa, fa), (da, da2))):
+            ea, eb = materialise(ca(xa)), materialise(cb(xb))
+            for ch in ({"time": -1, "y": (2, 1), "x": (2, 2)}, {"time": -1, "y": (3,), "x": (4,)}, {"time": -1, "y": (1, 1, 1), "x": (1, 3)}):
+                for sched in ("synchronous", "threads"):
+                    la, lb = ca(xa.chunk(ch)), cb(xb.chunk(ch))
+                    declared = [{k: str(r[k].dtype) for k in r.data_vars} if isinstance(r, xr.Dataset) else {"_": str(r.dtype)} for r in (la, lb)]
+                    with dask.config.set(scheduler=sched):
+                        ra, rb = dask.compute(la, lb)
+                    n_eval += 1
+                    for which, r, e, dec in (("first", ra, ea, declared[0]), ("second", rb, eb, declared[1])):
+                        out = {k: r[k] for k in r.data_vars} if isinstance(r, xr.Dataset) else {"_": r}
+                        for k in out:
+                            out[k].attrs = dict(out[k].attrs, __declared_dtype__=dec[k])
+                        msg = same(e, out)
+                        if msg:
+                            p.violation(sub, {"op": name, "what": label, "which": which, "chunks": {k: list(v) if isinstance(v, tuple) else v for k, v in ch.items()}, "scheduler": sched},
+                                        {"kind": "joint", "op": name},
+                                        f"{name} ({label}): the {which} of two lazy results computed together with dask.compute(a, b) "
+                                        f"[chunks {ch}, {sched}] is not what the same call gives in memory: {msg}")
+                    # the same two lazy objects inside one expression
+                    if not isinstance(la, xr.Dataset) and la.shape == lb.shape and la.dtype.kind in "fiu":
+                        with dask.config.set(scheduler=sched):
+                            diff = (la.astype("float64") - lb.astype("float64")).compute()
+                        exp = ea["_"].astype("float64") - eb["_"].astype("float64")
+                        n_eval += 1
+                        if not np.array_equal(diff.transpose(*exp.dims).values, exp.values, equal_nan=True):
+                            p.violation(sub, {"op": name, "what": label, "which": "difference", "scheduler": sched}, {"kind": "joint", "op": name},
+                                        f"{name} ({label}): a - b of two lazy results [chunks {ch}, {sched}] differs from the difference of the in-memory results")
+    p.count(sub, evaluations=n_eval, states=n_eval, transitions=n_eval, traces_validated_against_impl=n_eval, nontrivial=n_eval)
+    p.sample(sub, {"op": name, "evaluation": "dask.compute(a, b) and a - b", "chunkings": 3, "schedulers": ["synchronous", "threads"]})
+
+
 def _time_chunk_task(task, p):
     """A chunked time axis must be refused or handled correctly - never silently computed wrong."""
     name = task
@@ -711,6 +792,9 @@ def vprange_tasks(ctx):
     bound = 2 if not ctx.thorough() else 3
     tasks = []
     for cols in ((1,) if not ctx.thorough() else (1, 2)):
+        # three preemptions on the two-column cube would be ~10^6 executions in the subtree of the earliest
+        # deviation alone (hours for one worker): the wider cube is explored with two
+        bound = 2 if (not ctx.thorough() or cols == 2) else 3
         cube = vprange_cube(cols)
         holder = {}
 
@@ -724,7 +808,7 @@ def vprange_tasks(ctx):
             for alt in range(1, len(en)):
                 if (1 if running_enabled else 0) <= bound:
                     tasks.append((cols, bound, tuple(r.choices[:i] + [alt])))
-    ctx.note("vprange_preemption_bound", bound)
+    ctx.note("vprange_preemption_bound", "2" if not ctx.thorough() else "3 on the one-column cube, 2 on the two-column cube")
     ctx.note("vprange_first_level_prefixes", len(tasks))
     return tasks
 
@@ -732,8 +816,19 @@ def vprange_tasks(ctx):
 # =============================================================================================== driver
 def _dispatch(task, p):
     kind, t = task
+    import time as _t
+    t0 = _t.time()
+    try:
+        _dispatch_inner(kind, t, p)
+    finally:
+        p.note_max(f"slowest_task_s_{kind}", round(_t.time() - t0, 1))
+        if os.environ.get("VERIF_TASK_TIMES") and _t.time() - t0 > 20:
+            sys.stderr.write(f"[c12] task {kind} {str(t)[:120]} took {_t.time() - t0:.0f}s\n")
+
+
+def _dispatch_inner(kind, t, p):
     {"lazy_real": _lazy_real_task, "dasksched": _dasksched_task, "config": _config_task, "time_chunk": _time_chunk_task,
-     "perm": _perm_task, "vprange": _vprange_task}[kind](t, p)
+     "perm": _perm_task, "vprange": _vprange_task, "joint": _joint_task}[kind](t, p)
 
 
 def run(ctx):
@@ -782,8 +877,9 @@ def run(ctx):
         for lo in (range(0, 720, 180) if ctx.thorough() else range(0, 720, 240)):
             tasks.append(("perm", (name, lo, lo + (180 if ctx.thorough() else 60))))
     tasks += [("vprange", t) for t in vprange_tasks(ctx)]
+    tasks += [("joint", nm) for nm in joint_pairs()[1]]
     # longest first
-    weight = {"config": 5, "dasksched": 4, "lazy_real": 6, "perm": 3, "time_chunk": 2, "vprange": 1}
+    weight = {"config": 5, "dasksched": 4, "lazy_real": 6, "perm": 3, "time_chunk": 2, "vprange": 1, "joint": 2}
     tasks.sort(key=lambda t: -weight[t[0]])
     ctx.pmap(_dispatch, tasks)
     lap("forked_subchecks")
@@ -816,6 +912,8 @@ def replay(sub, case, p):
         _vprange_task((case["cols"], 2, ()), p)
     elif k == "threads":
         run_threads_child(p)
+    elif k == "joint":
+        _joint_task(case["op"], p)
     else:
         vprange_all(_wrap(p))
 
